@@ -44,12 +44,12 @@ BOUNDS = {
         "namespace is current, evaluable ones also evaluated there"
     ),
     "thorough": (
-        "destructuring, 59,285 patterns: depth <= 1 as quick (all 4 sites, form and macroexpansion); depth 2 = 202 contexts x 58 depth-1 "
+        "destructuring, 48,463 patterns: depth <= 1 as quick (all 4 sites, form and macroexpansion); depth 2 = 202 contexts x 58 depth-1 "
         "patterns + two-hole contexts (11,844; 4 sites + macroexpansion at let) + 16 contexts x all 564 depth-1 patterns (8,096; let + fn + "
-        "macroexpansion at let); depth 3 = 16 x 16 contexts x 58 patterns + 202 x 6 contexts x 4 patterns (19,440) + 6 x 6 contexts x 564 "
-        "patterns (19,296), at the let site.  syntax-quote, 41,326 templates: depth 1 adds width-3 lists / vectors / sets over the 12 main "
-        "leaves and 2-entry maps over 6 leaves (5,534); depth 2 = 45 contexts (alone, before / after each of 6 siblings) x all 538 depth-1 "
-        "collections of width <= 2 (24,210); depth 3 = 17 x 17 contexts x 40 collections of width <= 1 (11,560)"
+        "macroexpansion at let); depth 3 = 16 x 16 contexts x 58 patterns + 202 x 6 contexts x 4 patterns (19,440) + 4 x 4 contexts x 564 "
+        "patterns (8,474), at the let site.  syntax-quote, 33,794 templates: depth 1 adds width-3 lists / vectors / sets over the 12 main "
+        "leaves and 2-entry maps over 6 leaves (5,534); depth 2 = 31 contexts (alone, before / after each of 4 siblings) x all 538 depth-1 "
+        "collections of width <= 2 (16,678); depth 3 = 17 x 17 contexts x 40 collections of width <= 1 (11,560)"
     ),
 }
 RULE = (
@@ -153,6 +153,11 @@ def ctxlean6():
         ["vec", [H], None, None], ["vec", [S_, H], None, None], ["vec", [], H, None],
         ["map", [e("kw")], None], ["map", [e("int")], "_"], ["map", [e("str"), ["keys", "plain", "_", "const"]], None],
     ]  # fmt: skip
+
+
+def ctxlean4():
+    c = ctxlean6()
+    return [c[0], c[2], c[3], c[4]]
 
 
 def allctx():
@@ -282,7 +287,7 @@ def pattern_universe(tier):
     if tier == "thorough":
         d3a = [fill(c, [fill(c2, [p])]) for c in ctx16() for c2 in ctx16() for p in mid1()]
         d3a += [fill(c, [fill(c2, [p])]) for c in allctx() for c2 in ctxlean6() for p in lean4()]
-        d3b = [fill(c, [fill(c2, [p])]) for c in ctxlean6() for c2 in ctxlean6() for p in rich1()]
+        d3b = [fill(c, [fill(c2, [p])]) for c in ctxlean4() for c2 in ctxlean4() for p in rich1()]
         fams += [("depth3-ctx16", d3a), ("depth3-lean", d3b)]
     seen = set()
     out = []
@@ -545,7 +550,7 @@ EXTRA = [
 ]  # fmt: skip
 SIB3 = [["gs", "x"], ["splice", 0], ["sym", "loc"]]
 SIB2 = [["gs", "x"], ["splice", 0]]
-SIB6 = SIB2 + [["sym", "loc"], ["uq", ["param", 0]], ["sym", "vector"], ["sym", "if"]]
+SIB4 = SIB2 + [["sym", "loc"], ["uq", ["param", 0]]]
 LEANL = [["sym", "loc"], ["gs", "x"], ["uq", ["param", 0]], ["splice", 0]]
 TYPES = ("list", "vec", "set", "map")
 
@@ -621,7 +626,7 @@ def template_universe(tier):
     if tier == "quick":
         d2 = [tfill(c, i) for c in contexts(SIB2) for i in inner110]
     else:
-        d2 = [tfill(c, i) for c in contexts(SIB6) for i in colls(MAIN, (0, 1, 2))]
+        d2 = [tfill(c, i) for c in contexts(SIB4) for i in colls(MAIN, (0, 1, 2))]
     fams.append(("depth2", d2))
     if tier == "thorough":
         cs = contexts(SIB2)
